@@ -41,7 +41,7 @@ PROPERTY = "C14"
 
 MANIFEST = {
     "technique": "TLA+ specification of CellList (declarative neighbour sets + implementation-shaped grid model, specs/C14) model-checked by TLC; TLC's expected results for every enumerated input replayed against the real CellList; recorded larger executions re-computed by TLC",
-    "level_text": "TLC enumerates bounded families of integer-lattice inputs (<=3 atoms incl. duplicates and collinear sets, cell sizes 1, 3/2, 2, 5 (1/2), ten radii from 0 to beyond the extent, integer radii with pairs exactly on the sphere, 133 (quick) / 517 (thorough) query points incl. points outside the bounding box and far away, selections, orthorhombic / rotated-orthogonal / triclinic / left-handed periodic boxes) plus two-atom systems whose displacement runs through every class of displacements modulo the box for boxes of all 8 tilt patterns (which of a.b, a.c, b.c are non-zero), and checks that the grid algorithm of celllist.pyx (minimum-coordinate origin, truncating cell index, clipped cell cube, ceil(radius/cell_size), 27 images) equals the declarative definition, that cell queries are supersets, that the adjacency matrix is symmetric and is the thresholded pairwise (minimum-image) distance matrix, and that the algorithm of the distance functions (orthogonal shortcut / 8 periodic copies) finds the shortest copy for every tabulated box. Every expected result is then compared with the real CellList (index arrays, masks, scalar and per-query radii, single and batched coordinates, ndarray and AtomArray input) and with the pairwise distance matrix returned by index_distance(periodic=True) / distance(box=...) (entries and thresholded form against the adjacency matrix) in crash-isolated processes; the caller's arrays run through every element type and memory form of the specification (float32/float64/integer, C/Fortran order, row-/column-strided and reversed views) and are compared with snapshots after every call. A second model (CellSession) enumerates every construction form (ndarray / AtomArray with or without own box x box= absent / given / different x periodic flag; effective box EffBox, periodic without a box refused), every kind of every caller's array (coordinates, queries, per-query radii, selection, box; write-protected ones may be refused) and every history of 2 (thorough 3) calls out of 8 on one cell list with the same argument objects; every complete history is replayed against the real CellList. Systems of up to 60 atoms on the lattice and half lattice are recorded as such sessions and re-computed by TLC.",
+    "level_text": "TLC enumerates bounded families of integer-lattice inputs (<=3 atoms incl. duplicates and collinear sets, cell sizes 1, 3/2, 2, 5 (1/2), ten radii from 0 to beyond the extent, integer radii with pairs exactly on the sphere, 133 (quick) / 517 (thorough) query points incl. points outside the bounding box and far away, selections, orthorhombic / rotated-orthogonal / triclinic / left-handed periodic boxes) plus two-atom systems whose displacement runs through every class of displacements modulo the box for boxes of all 8 tilt patterns (which of a.b, a.c, b.c are non-zero), and checks that the grid algorithm of celllist.pyx (minimum-coordinate origin, truncating cell index, clipped cell cube, ceil(radius/cell_size), 27 images) equals the declarative definition, that cell queries are supersets, that the adjacency matrix is symmetric and is the thresholded pairwise (minimum-image) distance matrix, and that the algorithm of the distance functions (orthogonal shortcut / 8 periodic copies) finds the shortest copy for every tabulated box. Every expected result is then compared with the real CellList (index arrays, masks, scalar and per-query radii, single and batched coordinates, ndarray and AtomArray input) and with the pairwise distance matrix returned by index_distance(periodic=True) / distance(box=...) (entries and thresholded form against the adjacency matrix) in crash-isolated processes; the caller's arrays run through every element type and memory form of the specification (float32/float64/integer, C/Fortran order, row-/column-strided and reversed views) and are compared with snapshots after every call. A second model (CellSession) enumerates every construction form (ndarray / AtomArray with or without own box x box= absent / given / different x periodic flag; effective box EffBox, periodic without a box refused), every kind of every caller's array (coordinates, queries, per-query radii, selection, box; write-protected ones may be refused) and every history of 2 (thorough 3) calls out of 8 on one cell list with the same argument objects; every complete history is replayed against the real CellList. Systems of up to 60 atoms on the lattice and half lattice are recorded as such sessions and re-computed by TLC. Recorded sessions also hand over integer-typed boxes whenever the box holds whole numbers (Dom_BoxKind) while the coordinates lie on the half or quarter lattice.",
     "level_note": "Exact-arithmetic restriction: coordinates, boxes and cell sizes are integers or dyadic rationals, radii are integers or sqrt(k+1/2); nothing is decided about float32 rounding at cell borders or at the sphere for general coordinates. Periodic boxes are restricted to boxes for which TLC itself verified that 27 images contain a minimum image (Dom_Images27); strongly skewed boxes are outside the domain. The pairwise distance matrix of the library is required to be the minimum-image one only for boxes inside Dom_Images8 (the 8 copies examined by geometry.displacement contain a shortest one; verified by TLC for all 12 tabulated boxes), otherwise only not to be smaller. Results are compared as index sets (duplicates of periodic copies and padding order ignored). Exhaustive only for <=3 atoms; larger systems only through recorded executions. Write-protected float32 arrays and selections that are not one contiguous writable block are refused by the compiled code (ValueError); the statement is silent about them, so a refusal is accepted for exactly these kinds (RefusableKinds) and only an answer is judged. Histories are exhaustive up to 2 (3) calls; array kinds are those listed in CoordKindSeq / RadiiKindSeq / SelKindSeq. Trusted: TLC, the dump parser, numpy.",
 }
 
@@ -175,8 +175,11 @@ def scaled(values, scale, kind):
     import numpy as np
 
     if kind[0] == "i":
-        assert scale == 1, "Dom_KindValues: integer kinds need integer values"
-        return values
+        if scale == 1:
+            return values
+        a = np.array(values, dtype=np.int64)
+        assert (a % scale == 0).all(), "Dom_KindValues / Dom_BoxKind: integer kinds need integer values"
+        return (a // scale).tolist()
     return (np.array(values, dtype=np.float64) / scale).tolist()
 
 
@@ -805,7 +808,14 @@ def gen_trace(item):
         if not any(m):
             m[rng.randrange(n)] = True
         sel = [m]
-    kinds = [coord_kind(), "f4", "f4", pick_kind(K["sel"], K["sel_int"], K["sel_refusable"], False), coord_kind()]
+    # an integer-typed box is possible whenever its ticks are whole numbers at this scale (Dom_BoxKind),
+    # also when the coordinates lie on the half or quarter lattice
+    box_int_ok = all(v % scale == 0 for b in own + explicit for row in b for v in row)
+    if box_int_ok and scale > 1 and (own or explicit) and rng.random() < 0.5:
+        box_kind = rng.choice([k for k, i, r in zip(K["coord"], K["coord_int"], K["coord_refusable"]) if i and not r])
+    else:
+        box_kind = pick_kind(K["coord"], K["coord_int"], K["coord_refusable"], box_int_ok)
+    kinds = [coord_kind(), "f4", "f4", pick_kind(K["sel"], K["sel_int"], K["sel_refusable"], False), box_kind]
     box = eff_box(form)
     inp = [pts, cs, box, sel]
     variant = rng.randrange(6)
